@@ -6,6 +6,7 @@
 # vim: set ts=4 sts=4 et tw=78 sw=4 si:
 import base64
 import binascii
+import copy
 import sys
 from abc import ABCMeta
 
@@ -324,6 +325,17 @@ if PINT_AVAILABLE:
 
         def __init__(self, value, unit):
             super(PintQuantity, self).__init__(value, unit)
+
+        # Copies and pickles are rebuilt from the Haystack value and unit;
+        # Pint's own would pass its UnitsContainer on as the unit.
+        def __reduce__(self):
+            return (PintQuantity, (self.value, self.unit))
+
+        def __copy__(self):
+            return PintQuantity(self.value, self.unit)
+
+        def __deepcopy__(self, memo):
+            return PintQuantity(copy.deepcopy(self.value, memo), self.unit)
 
 
     Quantity.register(PintQuantity)
